@@ -208,6 +208,10 @@ func Main() int {
 		return replay(ctx, p, rp)
 	}
 	p.Run(ctx)
+	if ctx.Build == "cover" {
+		// reduced-scale reach measurement: the cell floors apply to the main run only
+		col.Res.Targets = nil
+	}
 	res := col.Finish()
 	markKnown(res)
 	if err := res.Write(out); err != nil {
